@@ -37,5 +37,13 @@ Vec(lab, folded) == LET g == Graph(lab) IN
 SelfVec == LET s == [name |-> SrcName(1), binaries |-> <<Bin(1, 1), Bin(1, 2)>>,
                      fields |-> << << <<[name |-> Bin(1, 2), restr |-> "none"]>> >>, <<>>, <<>> >>] IN
            [k |-> "order", sources |-> <<s>>, folded |-> FALSE, dscs |-> <<RenderDsc(s, FALSE)>>]
-ASSUME Emit(SetToSeq({Vec(lab, fo) : lab \in Labelings, fo \in BOOLEAN} \cup {SelfVec}))
+\* a source that refers to its OWN binary, in each of the three fields, with each label (edge-producing or not),
+\* alone and next to an unrelated second source
+SelfSrc(label, f) == [name |-> SrcName(1), binaries |-> <<Bin(1, 1), Bin(1, 2)>>,
+                      fields |-> [g \in 1..3 |-> IF g = f THEN RelFor(label, 1) ELSE <<>>]]
+Plain2 == [name |-> SrcName(2), binaries |-> <<Bin(2, 1), Bin(2, 2)>>, fields |-> <<<<>>, <<>>, <<>>>>]
+SelfVecs == {LET g == IF two THEN (IF first THEN <<SelfSrc(lb, f), Plain2>> ELSE <<Plain2, SelfSrc(lb, f)>>) ELSE <<SelfSrc(lb, f)>> IN
+             [k |-> "order", sources |-> g, folded |-> FALSE, dscs |-> [j \in 1..Len(g) |-> RenderDsc(g[j], FALSE)]] :
+                lb \in {"dep", "dep-arch", "unselected", "other-arch", "after-subst", "fallback", "excluded"}, f \in 1..3, two \in BOOLEAN, first \in BOOLEAN}
+ASSUME Emit(SetToSeq({Vec(lab, fo) : lab \in Labelings, fo \in BOOLEAN} \cup {SelfVec} \cup SelfVecs))
 =============================================================================
